@@ -1,5 +1,7 @@
 import T4V.Proofs.ConvertAll
 import T4V.Proofs.PostClosed
+import T4V.Proofs.CompileClosed
+import T4V.Proofs.PostKeys
 import T4V.Model.Post
 /-!
 # Property C01 — every point stays in the volume of the cell that owns it (Boolean core)
@@ -123,5 +125,44 @@ theorem postProcess_preserves (dedup : Bool) (surfs : List (Nat × String)) (u :
     simp only [hg] at h ⊢
     obtain ⟨f, hf'⟩ := h
     exact ⟨f, den_of_den'_closed _ σ hcl f k b (dictGet?_some_hasKey hg) hf'⟩
+
+/-- (f) the dictionary produced by the conversion loop has unique keys and no dangling reference: the two
+hypotheses of `postProcess_preserves` hold of what the compiler produces (syntactic invariant of
+`convert_surface`, `pot_convert`, `convert_cellref`, `pot_to_t4_cell` and the loop). -/
+theorem compiled_closed (env : CEnv) (fuel next0 : Nat) (keys : List Nat) (st' : CState)
+    (h : convertAll env fuel keys { next := next0 } = .ok st') : Closed st'.vols ∧ KeysNodup st'.vols :=
+  convertAll_closed_init env fuel next0 keys st' h
+
+/-- **(e) + post-processing, end to end**: after the conversion loop *and* de-duplication, renumbering,
+`remove_empty_volumes` and `remove_unused_volumes`, every live level-0 cell `c` either has a volume numbered `c`
+that contains the point iff the MCNP cell does, or has no volume and does not contain the point; and no
+reference dangles.  No hypothesis on the dictionary is left: closedness and unique keys are (f). -/
+theorem loop_then_post (env : CEnv) (σ : TSense) (cv : Nat → Bool) (hE : EnvOK env σ cv) (fuel next0 : Nat)
+    (keys : List Nat) (st' : CState) (hnd : keys.Nodup) (hle : ∀ c ∈ keys, c ≤ next0)
+    (h : convertAll env fuel keys { next := next0 } = .ok st')
+    (dedup : Bool) (surfs : List (Nat × String)) (u : Nat × Nat)
+    (hσu : ¬ (σ u.1 = true ∧ σ u.2 = false))
+    (hσeq : ∀ a b ka kb, (a, ka) ∈ surfs → (b, kb) ∈ surfs → ka = kb → σ a = σ b) :
+    Closed (postProcess dedup surfs u st'.vols).2 ∧
+    ∀ c ∈ keys,
+      match dictGet? (postProcess dedup surfs u st'.vols).2 c with
+      | some _ => Denotes (postProcess dedup surfs u st'.vols).2 σ c (cv c)
+      | none => cv c = false := by
+  obtain ⟨hcl, hkn⟩ := compiled_closed env fuel next0 keys st' h
+  refine ⟨postProcess_closed dedup surfs u st'.vols hcl hkn, ?_⟩
+  intro c hc
+  have hg := loop env σ cv hE fuel next0 keys st' hnd hle h c hc
+  unfold Good at hg
+  cases hd : dictGet? st'.vols c with
+  | none =>
+    simp only [hd] at hg
+    have hnone : dictGet? (postProcess dedup surfs u st'.vols).2 c = none := by
+      rw [dictGet?_none_iff]
+      intro hk
+      exact (dictGet?_none_iff.mp hd) (postProcess_keys_subset dedup surfs u st'.vols c hk)
+    rw [hnone]; exact hg
+  | some v =>
+    simp only [hd] at hg
+    exact (postProcess_preserves dedup surfs u st'.vols σ hkn hcl hσu hσeq c v (cv c) hd hg.1 hg.2).2
 
 end T4V.C01
